@@ -78,7 +78,8 @@ def run_sm_case(driver, script, cfg, ops, answers):
     real.run(script)
     driver.reset()
     for d in script:
-        driver.send(pslib.to_line(d))
+        if pslib.to_line(d) is not None:
+            driver.send(pslib.to_line(d))
     if real.problem is None:
         return [], 0, real
     a = sm.canon_trace(sm.run_real(real, cfg, ops, answers))
